@@ -16,7 +16,7 @@ def _run_c12(job):
     out = {"events": 0, "mism": [], "drift": []}
     try:
         rootcls = concretize_type(root, reg)
-        holdercls = concretize_type(holder, reg) if site == "field" else None
+        holdercls = concretize_type(holder, reg) if site in ("field", "pair") else None
         decoder = None
         for idx, ev in enumerate(beh):
             out["events"] += 1
@@ -30,7 +30,7 @@ def _run_c12(job):
                 try:
                     if site == "config":
                         res = ["ok", abstract_value(rootcls.from_dict(d), reg)]
-                    elif site == "field":
+                    elif site in ("field", "pair"):
                         res = ["ok", abstract_value(holdercls.from_dict({"f": d}), reg)]
                     else:
                         res = ["ok", abstract_value(decoder.decode(d), reg)]
